@@ -11,11 +11,11 @@ def mk(kind, v, t):
         return TriaMesh(v, t) if kind == "tri" else TetMesh(v, t)
 
 
-def run_diffusion(kind, v, t, vids, m):
+def run_diffusion(kind, v, t, vids, m, aniso=None):
     geo = mk(kind, v, t)
     with core.quiet():
         with capture.capture() as calls:
-            u = heat.diffusion(geo, vids, m=m)
+            u = heat.diffusion(geo, vids, m=m) if aniso is None else heat.diffusion(geo, vids, m=m, aniso=aniso)
     return geo, calls, np.asarray(u, dtype=float)
 
 
@@ -36,7 +36,8 @@ class Check(BaseCheck):
             "matrix and right-hand side handed to SuperLU are captured and compared with the model's B + tA and seed vector; kernel / "
             "diagonal on random spectra x time arguments (scalar, 1-D, row) x eigenvalue shapes (1-D, column) x n; distinct by hash")
     trusted = ["SuperLU exact solve (monitored by residual); float32 cast of the right-hand side"]
-    assumptions = ["solve contract: (B + tA) u = b; triangle `aniso` option not modelled (aniso=None only)"]
+    assumptions = ["solve contract: (B + tA) u = b; with the triangle `aniso` option A is the anisotropic stiffness built from the "
+                   "curvature_tria output the implementation computed (captured; its eigen-decomposition is C17's subject)"]
 
     def translate(self):
         extract.gen_fem()
@@ -50,6 +51,12 @@ class Check(BaseCheck):
                 n = len(c["v"])
                 vids = [int(x) for x in rng.choice(n, size=int(rng.integers(1, 4)))]
                 yield dict(kind=kind, v=c["v"], t=c["t"], vids=vids, m=float(rng.uniform(0.1, 5.0)), name=c["name"])
+        from .. import corr_fem
+        for c in corr_fem.aniso_meshes(seed + 73, max(3, n_tri // 5)):
+            n = len(c["v"])
+            a = c["aniso"]
+            yield dict(kind="tri", v=c["v"], t=c["t"], vids=[int(x) for x in rng.choice(n, size=int(rng.integers(1, 4)))],
+                       m=float(rng.uniform(0.1, 5.0)), name="aniso-" + c["name"], aniso=list(a) if isinstance(a, tuple) else a)
 
     def correspond(self, drv, stats):
         fails = []
@@ -60,18 +67,28 @@ class Check(BaseCheck):
             stats.case(core.mesh_key(v, t, case["vids"], case["m"]), cls=[case["kind"] + ":" + case["name"], "seeds:%d" % len(set(case["vids"]))],
                        sample=dict(kind=case["kind"], name=case["name"], n=n, vids=case["vids"], m=case["m"]))
             try:
-                geo, calls, u = run_diffusion(case["kind"], v, t, case["vids"], case["m"])
+                aniso = case.get("aniso")
+                geo, calls, u = run_diffusion(case["kind"], v, t, case["vids"], case["m"], tuple(aniso) if isinstance(aniso, list) else aniso)
             except Exception as e:  # noqa: BLE001
                 fails.append(core.Failure("correspondence", "diffusion vs model", "impl raised %s: %s" % (type(e).__name__, e), case))
                 continue
-            r = wire.Reply(drv.ask("heat_sys %s %s %s %s %s" % (case["kind"], wire.verts(v), wire.elems(t), wire.fhex(case["m"]), wire.nats(case["vids"]))))
+            if aniso is None:
+                r = wire.Reply(drv.ask("heat_sys %s %s %s %s %s" % (case["kind"], wire.verts(v), wire.elems(t), wire.fhex(case["m"]), wire.nats(case["vids"]))))
+            else:
+                from .. import corr_fem
+                a0, a1 = (aniso if isinstance(aniso, list) else (aniso, aniso))
+                if len(calls.curv_tria) != 1:
+                    fails.append(core.Failure("correspondence", "diffusion vs model", "%d curvature_tria calls" % len(calls.curv_tria), case))
+                    continue
+                r = wire.Reply(drv.ask("heat_sys_aniso %s %s %s %s %s %s %s" % (wire.verts(v), wire.elems(t), wire.fhex(case["m"]), wire.nats(case["vids"]),
+                                       wire.fhex(float(a0)), wire.fhex(float(a1)), corr_fem.cur_wire(calls.curv_tria[0]))))
             if r.status != "ok" or len(calls.splu) != 1:
                 fails.append(core.Failure("correspondence", "diffusion vs model", "model %s, %d splu calls" % (r.raw[:40], len(calls.splu)), case))
                 continue
             tt = r.flt(); hm = core.sparse_from(*r.coo(), n); b0 = r.floats()
             hi = calls.splu[0]["a"]; bi, xi = calls.splu[0]["solves"][0]
             e = core.sparse_relerr(hi.astype(float), hm) if hi.shape == hm.shape else float("inf")
-            if e > 1e-9 or not np.array_equal(np.asarray(bi, dtype=float).reshape(-1), b0):
+            if e > (1e-9 if aniso is None else 2e-4) or not np.array_equal(np.asarray(bi, dtype=float).reshape(-1), b0):
                 fails.append(core.Failure("correspondence", "diffusion: system handed to the solver vs model", "matrix rel.err %.3g, rhs equal %s" % (
                     e, np.array_equal(np.asarray(bi, dtype=float).reshape(-1), b0)), case))
             if not np.array_equal(np.asarray(xi, dtype=float).reshape(-1), u):
@@ -137,15 +154,19 @@ class Check(BaseCheck):
             return None
         kind = case["kind"]
         v = np.asarray(case["v"], float); t = np.asarray(case["t"], dtype=np.int64); vids = [int(x) for x in case["vids"]]; m = float(case["m"])
+        aniso = case.get("aniso")
+        aniso = tuple(aniso) if isinstance(aniso, (list, np.ndarray)) else aniso
         try:
-            geo, calls, u = run_diffusion(kind, v, t, vids, m)
+            geo, calls, u = run_diffusion(kind, v, t, vids, m, aniso)
             with core.quiet():
                 fem = Solver(geo, lump=True)
                 ell = geo.avg_edge_length()
+                if aniso is not None:
+                    fa = Solver(mk(kind, v, t), aniso=aniso)      # anisotropic stiffness (independent of the mass option)
         except Exception as e:  # noqa: BLE001
             return core.Violation("runs", "diffusion raised %s: %s" % (type(e).__name__, e), case)
         n = len(v)
-        A = fem.stiffness.astype(float); B = fem.mass.astype(float)
+        A = (fem if aniso is None else fa).stiffness.astype(float); B = fem.mass.astype(float)
         b = np.zeros(n); b[vids] = 1.0
         r = (B + m * ell ** 2 * A) @ u - b
         if np.max(np.abs(r)) > 1e-5:
@@ -155,9 +176,11 @@ class Check(BaseCheck):
             return core.Violation("conservation", "total heat %.8g, seeded vertices %d" % (tot, len(set(vids))), case)
         sv = sorted(set(vids))
         if len(sv) >= 2:
-            u1 = run_diffusion(kind, v, t, sv[:1], m)[2]; u2 = run_diffusion(kind, v, t, sv[1:], m)[2]
+            u1 = run_diffusion(kind, v, t, sv[:1], m, aniso)[2]; u2 = run_diffusion(kind, v, t, sv[1:], m, aniso)[2]
             if np.max(np.abs(u1 + u2 - u)) > 2e-5 * max(np.abs(u).max(), 1e-30):
                 return core.Violation("additive", "result not additive over disjoint seed sets", case)
+        if aniso is not None:
+            return None       # curvature weights are not scale invariant and principal directions are ill-conditioned at umbilics
         rng = gen.rng_for(self.seed, "c07o", n)
         Q = gen.random_rotation(rng, reflect=bool(rng.random() < 0.5)); s = float(rng.uniform(0.5, 2.0))
         us = run_diffusion(kind, s * (v @ Q.T) + rng.uniform(-1, 1, 3), t, vids, m)[2]
